@@ -15,7 +15,9 @@ let variant_of = function
     let has c = String.length s > 4 && String.contains (String.sub s 4 (String.length s - 4)) c in
     (* V: the component keys the pool by (0, inside address); X: Config.Validate accepts pools sharing addresses *)
     { v_validate = not (has 'R'); v_replace = not (has 'A'); v_dedup = not (has 'D'); v_rollback = not (has 'S');
-      v_vrfkey = not (has 'V'); v_xpool = not (has 'X'); v_late = not (has 'L') }
+      v_vrfkey = not (has 'V'); v_xpool = not (has 'X'); v_late = not (has 'L');
+      (* C: Validate accepts a reversed range / block size 0; G: release ignores a mapping preserved by the degraded restore *)
+      v_cfgcheck = not (has 'C'); v_degrel = not (has 'G') }
 
 let hex_of_n (x : n) : string =
   match x with
@@ -125,14 +127,14 @@ let run_mp (v : variant) (head : string) (ops : string list) (impl : string opti
     let st = ref None and stop = ref false in
     let pools () = match !st with
       | Some ps -> ps
-      | None -> (match configure_all v [r1; r2] with Some ps -> st := Some ps; ps | None -> failwith "configure") in
+      | None -> (match configure_all v [r1; r2] with Some ps -> st := Some ps; ps | None -> raise Exit) in
     List.iteri (fun i tok ->
       if not !stop then
+      try
       match split_on tok ":" with
       | ["v"] ->
-        (match mconfigure v [r1; r2] with
-         | None -> emit "invalid"; stop := true
-         | Some ps -> st := Some ps; emit "valid")
+        if (v.v_xpool && not (pools_valid [r1; r2])) || (v.v_cfgcheck && not (pool_ok r1 && pool_ok r2))
+        then (emit "invalid"; stop := true) else emit "valid"
       | ["d"] ->
         let ps = pools () in
         let (c1, p1) = List.nth ps 0 and (c2, p2) = List.nth ps 1 in
@@ -155,7 +157,8 @@ let run_mp (v : variant) (head : string) (ops : string list) (impl : string opti
            let (_, out) = step v c p o in
            st := Some (mstep v ps (nat_of_int idx, o));
            emit (show_out_pool out))
-      | _ -> emit "badop") ops;
+      | _ -> emit "badop"
+      with Exit -> (emit "panic runtime_error:_integer_divide_by_zero"; stop := true)) ops;
     if !outs = [] then "empty" else String.concat " ; " (List.rev !outs)
   | _ -> "badline"
 
@@ -170,6 +173,7 @@ let run_case (v : variant) (line : string) (impl : string option) : string =
      | kind :: cfgtoks ->
        let raw = parse_cfg cfgtoks in
        let c = effective raw in
+       if v.v_cfgcheck && not (pool_ok raw) then "invalid" else
        (match configure v raw with
         | None -> "panic runtime_error:_integer_divide_by_zero"
         | Some p0 ->
@@ -208,8 +212,8 @@ let run_case (v : variant) (line : string) (impl : string option) : string =
               | ["L"; sid; k] ->
                 let (s', o) = cstep v c !s (CActivateLate (nn sid, nn k, obs i)) in s := s'; emit (show_out_dp o)
               | ["K"; sid; ok] -> let (s', _) = cstep v c !s (CAddComplete (nn sid, ok = "1")) in s := s'; emit "ok"
-              | ["D"; _; mk; ip; a; b] ->
-                let (s', _) = cstep v c !s (CRestoreDegraded (nn mk, blk ip a b)) in s := s'; emit "nodp"
+              | ["D"; sid; mk; ip; a; b] ->
+                let (s', _) = cstep v c !s (CRestoreDegraded (nn sid, nn mk, blk ip a b)) in s := s'; emit "nodp"
               | ["d"] ->
                 let sess = List.sort compare (List.map int_of_n !s.cp_sess) in
                 let sess = if sess = [] then "-" else String.concat "," (List.map string_of_int sess) in
